@@ -14,6 +14,17 @@ GEN_AUDIT = ["Dashu.Audit.GenFloatCmp", "Dashu.Audit.GenRatCmp", "Dashu.Audit.Ge
 # to `Float.reprRound` (the definition `float_results_fit`, `float_results_canonical` and the `f.ctx` driver op are about)
 GEN_PROPS += ["Dashu.Props.GenFloatOps"]
 GEN_AUDIT += ["Dashu.Audit.GenFloatOps"]
+# round 5: `Repr::<B>::normalize` regenerated (Gen/FloatNorm.lean, vlib/extract_floatnorm.py) and proved equal to the hand models
+# `FRepr.normalize` (C05) and `Float.FRepr.new` (C03); the `UBig::remove` arm is C12's mirrored `removeRepr`
+GEN_PROPS += ["Dashu.Props.GenFloatNorm", "Dashu.Props.C05Norm"]
+GEN_AUDIT += ["Dashu.Audit.C05Norm"]
+# round 5: C05 <-> C04 link — ==/cmp/hash of ANY two registers of any rational history follow the values (C04's history
+# invariant composed with ratio_cmp / relaxed_eq / rbig_eq / rbig_hash_follows_value)
+GEN_PROPS += ["Dashu.Props.C05Link"]
+GEN_AUDIT += ["Dashu.Audit.C05Link"]
+# round 5: FBig::from_parts_const's own normaliser mirrored and proved = Repr::normalize
+GEN_PROPS += ["Dashu.Props.C05Const"]
+GEN_AUDIT += ["Dashu.Audit.C05Const"]
 JOBS = 12
 READY = True
 
@@ -117,6 +128,55 @@ def twos_le(v, rng):
         n = 0
     n += rng.choice([0, 0, 1, 7, 8, 9, 17]) if n or rng.random() < 0.5 else 0
     return list((v & ((1 << (8 * n)) - 1)).to_bytes(n, "little")) if n else []
+
+
+ISZ_MAX = (1 << 63) - 1
+ISZ_MIN = -(1 << 63)
+USZ_MAX = (1 << 64) - 1
+NORM_BASES = [2, 3, 4, 5, 6, 7, 8, 9, 10, 11, 12, 16, 24, 32, 36, 64, 100, 255, 256, 1000, 65536, 65537, 1 << 32, (1 << 32) - 1,
+              1 << 63, 10 ** 19, (1 << 64) - 1, 3 ** 40]
+
+
+def ndigits(n, B):
+    d = 0
+    while n:
+        n //= B; d += 1
+    return d
+
+
+def _fparts(B, s, e, p):
+    """(normalised significand, normalised exponent, precision as from_parts/with_precision give it, digits) of a
+    finite non-zero operand of `f.cmp` / `f.norm`; None for zero and the infinities"""
+    if s in ("inf", "-inf"):
+        return None
+    v = -int(s[1:], 16) if s.startswith("-") else int(s, 16)
+    if v == 0:
+        return None
+    prec = p if p else max(ndigits(abs(v), B), 1)
+    while v % B == 0:
+        v //= B; e += 1
+    return (v, e, prec, ndigits(abs(v), B))
+
+
+def kf_float_cmp_overflow(op, args, impl):
+    """the input class of the finding `float/src/cmp.rs repr_cmp_same_base: exponent + precision / exponent + digits_ub in
+    isize`: two finite non-zero operands of equal sign (cases 4 and 5 are reached) one of which has a precision >= 2^63
+    (`as isize` goes negative) or `exponent + max(precision, digits + 1) > isize::MAX` (the sum leaves isize)"""
+    if op == "f.cmp":
+        B = int(args[0])
+        a = _fparts(B, args[1], int(args[2][2:]), int(args[3][2:]))
+        b = _fparts(B, args[4], int(args[5][2:]), int(args[6][2:]))
+        if a is None or b is None or (a[0] < 0) != (b[0] < 0):
+            return False
+        if impl.startswith("panic") and not ("float/src/cmp.rs" in impl and "with_overflow" in impl):
+            return False
+        return any(x[2] >= 1 << 63 or x[1] + max(x[2], x[3] + 1) > ISZ_MAX for x in (a, b))
+    if op == "f.norm":
+        a = _fparts(int(args[0][2:]), args[1], int(args[2][2:]), 0)
+        # (the harness also compares the FBig built by from_parts, whose precision is the digit count of the significand as given)
+        return (a is not None and a[1] + max(a[2], a[3] + 1) > ISZ_MAX and "float/src/cmp.rs" in impl
+                and "attempt_to_add_with_overflow" in impl)
+    return False
 
 
 def generate(rng, tier):
@@ -255,6 +315,13 @@ def generate(rng, tier):
                 if rng.random() < 0.06:
                     t = rng.choice(["", "_", "-", t + "!", t + DIG[r] if r < 36 else "-" + t + " ", "+-" + t])   # malformed: ends the history (unless it happens to be valid)
                     prog.append("str:%d:%d:%s" % (1 if signed else 0, r, t.encode().hex())); break
+                if rng.random() < 0.12:
+                    # round 5 (E2): ANY byte 0x00..0x7f (and a few multi-byte characters) substituted or inserted at the first /
+                    # a middle / the last position of a valid text — the last instruction of the history (valid or not)
+                    ch = rng.choice([chr(rng.randrange(0, 0x80))] * 6 + ["\u00e9", "\u0663", "\uff11", "\u2212"])
+                    pos = rng.choice([0, len(t) // 2, max(len(t) - 1, 0), len(t), rng.randrange(0, len(t) + 1)])
+                    t = t[:pos] + ch + (t[pos + 1:] if rng.random() < 0.5 else t[pos:])
+                    prog.append("str:%d:%d:%s" % (1 if signed else 0, r, t.encode().hex())); break
                 emit("str:%d:%d:%s" % (1 if signed else 0, r, t.encode().hex()), v)
             elif op in ("leb", "beb"):
                 v = abs(a)
@@ -296,6 +363,34 @@ def generate(rng, tier):
                 else:
                     emit("nextpow2:%d" % i, 1 if a <= 1 else 1 << (a - 1).bit_length())
         yield Case("c.hist", [",".join(prog)])
+    # ---- round 5 (E2): from_str_radix inside a history with EVERY byte 0x00..0x7f at the first / a middle / the last position
+    #      (substituted into a valid text of radix 2..36, signed and unsigned parse): accepted texts must give the canonical
+    #      value, rejected ones end the history the same way on both sides
+    for b in range(0x80):
+        for pk in ([rng.randrange(3)] if quick else [0, 1, 2]):
+            r = rng.choice([2, 8, 10, 16, 36, 7, 11, 35])
+            v = rng.getrandbits(rng.choice([8, 64, 65, 130])) + 1
+            t = to_radix(v, r, rng)
+            pos = [0, len(t) // 2, len(t) - 1][pk]
+            t = t[:pos] + chr(b) + t[pos + 1:]
+            yield Case("c.hist", ["const:%s,str:%d:%d:%s" % (hx(v), rng.randrange(2), r, t.encode().hex())])
+    # ---- round 5 (E1): the integer producers with a `usize` count at EVERY kind of count: IBig/UBig >> n (both ownership forms),
+    #      clear_high_bits, split_bits, clear_bit, nth_root(n >= bit_len) — 0, 1, W-1, W, W+1, 2W-1..2W+1, around the bit length
+    #      and the word boundaries of the value, 2^31, 2^32-1, 2^32, 2^32+k (k < 130), 2^63, usize::MAX-k (k = 0..130); values
+    #      of 0..6 words straddling the inline/heap boundary, both signs: results canonical (repr_info), ==/cmp/hash by value
+    for _ in range(420 if quick else 15000):
+        x = boundary(rng) if rng.random() < 0.3 else nat(rng, tier, rng.choice([0, 1, 1, 2, 2, 3, 3, 4, 6]))
+        bl = x.bit_length()
+        r = rng.random()
+        if r < 0.35:
+            n = rng.choice([0, 1, 63, 64, 65, 127, 128, 129, 191, 192, 193, max(bl - 1, 0), bl, bl + 1, max(bl - 64, 0), max(bl - 65, 0),
+                            bl + 63, bl + 64, rng.randrange(0, bl + 70)])
+        elif r < 0.55:
+            n = rng.choice([(1 << 31) - 1, 1 << 31, (1 << 32) - 1, 1 << 32, (1 << 32) + rng.randrange(1, 130), (1 << 32) + 64,
+                            (1 << 32) + 128, (1 << 63) - 1, 1 << 63, (1 << 63) + rng.randrange(1, 130)])
+        else:
+            n = USZ_MAX - rng.randrange(0, 131)
+        yield Case("c.ext", [hx(-x if rng.random() < 0.4 else x), dec(n)])
     # ---- ones(n)
     for n in sorted(set([0, 1, 63, 64, 65, 127, 128, 129, 191, 192, 193, 255, 256, 257]
                         + [rng.randrange(0, 600) for _ in range(20 if quick else 300)])):
@@ -331,6 +426,116 @@ def generate(rng, tier):
             d = max(fl_digits(s, base), 1)
             return d + rng.choice([0, 0, 1, 5, 50])
         yield Case("f.cmp", [base, sa, dec(ea), dec(prec(sa, pa)), sb, dec(eb), dec(prec(sb, pb))])
+    # ---- round 5: the normalising constructor alone (`Repr::new` = `Repr::normalize`, regenerated as Gen/FloatNorm.lean):
+    #      28 bases — 2 (first arm), powers of two with 2..63 bits per digit (second arm: trailing zero BITS of every
+    #      residue modulo the digit width), everything else through `UBig::remove` (one-word bases up to 2^64-1; the
+    #      squaring tower reaches f^2, f^4, … f^256: multiplicities 0..300, every binary pattern) — cofactors that share a
+    #      proper divisor with the base, signs, zero; exponents at 0, +-1, 2^31, 2^32 (+-k), isize::MIN, and so that the
+    #      RESULT exponent is isize::MAX - t for t around the digit count (E1)
+    for _ in range(520 if quick else 20000):
+        B = rng.choice(NORM_BASES)
+        j = rng.choice([0, 0, 1, 1, 2, 3, 4, 5, 6, 7, 8, 9, 15, 16, 17, 31, 32, 33, 63, 64, 65, 127, 128, 129,
+                        rng.randrange(0, 130 if quick else 300)])
+        if B.bit_length() > 32:
+            j = min(j, 40 if quick else 140)
+        k = rng.choice([1, 1, B - 1, B + 1, 3, rng.getrandbits(rng.choice([3, 20, 63, 64, 65, 128, 129, 200])) | 1])
+        if B & (B - 1) == 0:
+            bits = B.bit_length() - 1
+            k = (k | 1) << rng.randrange(0, bits)          # trailing zero bits that are not a whole digit
+        else:
+            divs = [d for d in (2, 3, 5, 7, 11, 17, 257, 65537) if B % d == 0 and d < B]
+            if divs and rng.random() < 0.5:
+                k *= rng.choice(divs) ** rng.randrange(1, 4)
+            while k % B == 0:
+                k += 1
+        sg = k * B ** j
+        if rng.random() < 0.04:
+            sg = 0
+        if rng.random() < 0.45:
+            sg = -sg
+        D = ndigits(k, B)
+        r = rng.random()
+        if r < 0.5:
+            e = rng.choice([0, 0, 1, -1, 7, -7, rng.randrange(-1000, 1000)])
+        elif r < 0.62:
+            e = rng.choice([1, -1]) * ((1 << rng.choice([31, 32])) + rng.randrange(-2, 131))
+        elif r < 0.72:
+            e = ISZ_MIN + rng.choice([0, 1, 2, 64, 130])
+        else:
+            e = ISZ_MAX - j - rng.choice([0, 1, max(D - 1, 0), D, D + 1, D + 2, D + 3, D + 5, 2 * D + 2, 64, 130])
+        yield Case("f.norm", [dec(B), hx(sg), dec(e)])
+    for B in NORM_BASES:
+        for sg, e in ((0, 5), (1, 0), (-1, -1), (B, 0), (-B * B, 3), (B * B * B * (B + 1), -3), (B - 1, ISZ_MIN), (B ** 5, ISZ_MIN)):
+            yield Case("f.norm", [dec(B), hx(sg), dec(e)])
+    # ---- round 5 (E2): `B^j - 1`, `B^j`, `B^j + 1` for EVERY j with B^j < 2^128 and every base (from_parts_const's
+    #      `checked_mul` digit loop and both normalisers at every magnitude), plus significands in [B^jmax, 2^128): the
+    #      class where the const constructor's inferred precision is one below the digit count (still <= precision + 1)
+    pw = []
+    for B in NORM_BASES:
+        j, p_ = 0, 1
+        while p_ < (1 << 128):
+            for d_ in (-1, 0, 1):
+                if 0 < p_ + d_ < (1 << 128):
+                    pw.append((B, p_ + d_))
+            j += 1; p_ *= B
+        top = p_ // B
+        for _ in range(3):
+            pw.append((B, rng.randrange(top, 1 << 128)))
+        pw.append((B, (1 << 128) - 1)); pw.append((B, 1 << 128))
+    if quick:
+        pw = rng.sample(pw, 260)
+    for B, sg in pw:
+        yield Case("f.norm", [dec(B), hx(-sg if rng.random() < 0.3 else sg), dec(rng.choice([0, 0, -3, 17]))])
+    # ---- round 5 (E1): comparison of floats with EXTREME exponents and precisions — exponents within a few digit counts of
+    #      isize::MAX (the sums `exp + precision`, `exp + digits_ub` of the shortcuts leave isize: known finding), just below
+    #      that threshold (must be exact), at isize::MIN, around 2^31 / 2^32; precisions 2^31, 2^32 (+-k), 2^63 -+ k,
+    #      usize::MAX - k.  The two exponents stay within 2*digits+2 of each other (the exact comparison is cheap).
+    for _ in range(320 if quick else 12000):
+        base = rng.choice([2, 10, 10, 16])
+        nd = rng.choice([1, 1, 2, 3, 5, 19, 20, 40])
+        s1 = rng.randrange(base ** (nd - 1), base ** nd)
+        if s1 % base == 0:
+            s1 += 1
+        kind = rng.choice(["expmax", "expmax", "expmax", "expmin", "exp32", "prec", "prec"])
+        if kind == "expmax":
+            E = ISZ_MAX - rng.choice([0, 1, max(nd - 1, 0), nd, nd + 1, nd + 2, nd + 3, 2 * nd + 1, 60, 130, 1000])
+        elif kind == "expmin":
+            E = ISZ_MIN + rng.choice([0, 1, 64, 130])
+        elif kind == "exp32":
+            E = rng.choice([1, -1]) * ((1 << rng.choice([31, 32])) + rng.randrange(-2, 131))
+        else:
+            E = rng.choice([0, 3, -3, 100, -100, ISZ_MAX - 200, ISZ_MIN + 5])
+        r = rng.random()
+        if r < 0.3:
+            s2, E2 = s1, E
+        elif r < 0.5:
+            s2, E2 = s1 + rng.choice([-1, 1]), E
+        elif r < 0.75:
+            kk = rng.randrange(1, nd + 2)                      # the same value / a neighbour written with a lower exponent
+            s2, E2 = s1 * base ** kk + rng.choice([0, 0, 1, -1]), E - kk
+        else:
+            s2 = rng.randrange(1, base ** rng.randrange(1, nd + 2))
+            E2 = E + rng.randrange(-(2 * nd + 2), 2 * nd + 3)
+        if s2 == 0:
+            s2 = 1
+        E2 = min(max(E2, ISZ_MIN), ISZ_MAX)
+        if E2 < ISZ_MIN + 0 or E < ISZ_MIN:
+            continue
+        sgn = rng.choice([(1, 1), (1, 1), (-1, -1), (-1, -1), (1, -1)])
+
+        def bigprec(dg):
+            if kind != "prec" and rng.random() < 0.8:
+                return 0 if rng.random() < 0.5 else dg + rng.choice([0, 1, 5])
+            return rng.choice([1 << 31, (1 << 32) - 1, 1 << 32, (1 << 32) + rng.randrange(1, 130), (1 << 63) - 1 - rng.randrange(0, 131),
+                               1 << 63, (1 << 63) + rng.randrange(1, 131), USZ_MAX - rng.randrange(0, 131), USZ_MAX])
+        # trailing base-digits of s2 are stripped by normalize: the exponent must stay inside isize
+        t2, z2 = s2, 0
+        while t2 % base == 0:
+            t2 //= base; z2 += 1
+        if E2 + z2 > ISZ_MAX:
+            continue
+        yield Case("f.cmp", [base, hx(sgn[0] * s1), dec(E), dec(bigprec(ndigits(s1, base))),
+                             hx(sgn[1] * s2), dec(E2), dec(bigprec(ndigits(s2, base)))])
     # ---- a float out of with_base::<10>() (exact integer, possibly more digits than its precision)
     #      against decimal floats around it
     P10 = {10: 3, 20: 6, 30: 9, 40: 12, 50: 15, 64: 19, 100: 30}
@@ -527,7 +732,7 @@ def nontrivial(c):
     import re
     if c.op == "c.hist":
         return len(c.args[0]) > 60
-    if c.op in ("c.routes", "ci.routes", "c.cmp", "cu.cmp", "c.hashfeed"):
+    if c.op in ("c.routes", "ci.routes", "c.cmp", "cu.cmp", "c.hashfeed", "c.ext"):
         return any(re.fullmatch(r"-?[0-9a-f]+", a) and len(a.lstrip("-")) > 16 for a in c.args)
     return True
 
@@ -548,7 +753,7 @@ RULE = ("integers: values of exactly 0..6,9 (thorough ..100) words in the C09 bi
         "one rational built by 16 / 15 routes (trailing-zero significands, precision changes incl. unlimited, +0, *1, shifts, "
         "parsing, integer conversion, rounding-mode change; non-reduced and signed parts, arithmetic round trips, parsing, "
         "Relaxed->canonicalize) whose representations must be the normalised / reduced one and pairwise ==, cmp Equal (and, for "
-        "RBig, hash-identical). `f.subcmp`: differences of equal-signed operands that keep the spare (p+1-st) digit, compared with values at the exponent thresholds of the precision shortcut and with neighbours; `f.viabase`: floats of base 16/8/4/9/27/100 with significands 2^j*odd, odd, multiples of the base, zero, converted exactly to the root base (with_base_and_precision, with_base, to_binary) — normalised, ==, cmp Equal to from_parts in the target base; every float the harness receives back is checked for normalisation (`!unnormalized` marker). `f.ctx`: one value `s*B^e` of ANY digit count rounded ONCE to p digits through every single-rounding route — owning (with_precision, Context::sub(0,-x), convert_int) and borrowing (Context::add(&0,&x), add(&x,&0), sub(&x,&0), powi(x,1), powf(x,1)) — all results must be the representation the model computes (reprRound), normalised, pairwise ==, cmp Equal, same numeric hash; then Context::mul/sqr/cubic/add/sub/div/inv/sqrt/powi(2,5,-3)/exp/ln on operands LONGER than the precision (the by-reference pre-shrink runs): normalised, <= p+1 digits, ==/cmp Equal to the rebuilt copy; classes: unlimited precision, digits <= p, kept digits ending in zero digits, all-max kept digits (carry), ties / tie+-1 / tiny / all-max discarded part, 11 (base, mode) pairs incl. base 3, second operand around the 2p / 3p / rhs.digits+p thresholds. `f.cmp` also compares through `Ord/PartialEq for Repr<B>` (no precisions). `c.hist` instruction set extended by gcd, sqrt, nth_root (n in 0..130), from_str_radix (radix 2..36, sign, underscores, leading zeros, malformed text ending the history), from_le/be_bytes (UBig and two-complement IBig; zero / sign-extension padding across word boundaries; top byte exactly 0x80; random byte strings) and byte round trips. `f.zero`: exact zeros of every origin (literal, default, from_parts(0,k), a-a, 0*a, -0, parsed; unlimited and limited precision; bases 2/10/16/3, five rounding modes) through every FBig producer in by-value / by-reference / compound-assignment form (shifts, mul, add/sub of zero, neg, abs, div, sqr, cubic, sqrt, powi, trunc..round, clone_from, with_precision/rounding/base) — each result must be significand 0 exponent 0, ==/cmp Equal to ZERO both ways, strictly between -1 and 1, same numeric hash feed. Non-trivial := an integer operand above one word, "
+        "RBig, hash-identical). `f.subcmp`: differences of equal-signed operands that keep the spare (p+1-st) digit, compared with values at the exponent thresholds of the precision shortcut and with neighbours; `f.viabase`: floats of base 16/8/4/9/27/100 with significands 2^j*odd, odd, multiples of the base, zero, converted exactly to the root base (with_base_and_precision, with_base, to_binary) — normalised, ==, cmp Equal to from_parts in the target base; every float the harness receives back is checked for normalisation (`!unnormalized` marker). `f.ctx`: one value `s*B^e` of ANY digit count rounded ONCE to p digits through every single-rounding route — owning (with_precision, Context::sub(0,-x), convert_int) and borrowing (Context::add(&0,&x), add(&x,&0), sub(&x,&0), powi(x,1), powf(x,1)) — all results must be the representation the model computes (reprRound), normalised, pairwise ==, cmp Equal, same numeric hash; then Context::mul/sqr/cubic/add/sub/div/inv/sqrt/powi(2,5,-3)/exp/ln on operands LONGER than the precision (the by-reference pre-shrink runs): normalised, <= p+1 digits, ==/cmp Equal to the rebuilt copy; classes: unlimited precision, digits <= p, kept digits ending in zero digits, all-max kept digits (carry), ties / tie+-1 / tiny / all-max discarded part, 11 (base, mode) pairs incl. base 3, second operand around the 2p / 3p / rhs.digits+p thresholds. `f.cmp` also compares through `Ord/PartialEq for Repr<B>` (no precisions). `c.hist` instruction set extended by gcd, sqrt, nth_root (n in 0..130), from_str_radix (radix 2..36, sign, underscores, leading zeros, malformed text ending the history), from_le/be_bytes (UBig and two-complement IBig; zero / sign-extension padding across word boundaries; top byte exactly 0x80; random byte strings) and byte round trips. `f.zero`: exact zeros of every origin (literal, default, from_parts(0,k), a-a, 0*a, -0, parsed; unlimited and limited precision; bases 2/10/16/3, five rounding modes) through every FBig producer in by-value / by-reference / compound-assignment form (shifts, mul, add/sub of zero, neg, abs, div, sqr, cubic, sqrt, powi, trunc..round, clone_from, with_precision/rounding/base) — each result must be significand 0 exponent 0, ==/cmp Equal to ZERO both ways, strictly between -1 and 1, same numeric hash feed. `c.hist` str instruction (round 5, E2): every byte 0x00..0x7f (and 4 multi-byte characters) substituted or inserted at the first / middle / last position of a valid text, radix 2..36. `c.ext` (round 5, E1): IBig/UBig >> n (by value and by reference), clear_high_bits, split_bits, clear_bit, nth_root(n >= bit_len) for n = 0, 1, W-1..W+1, 2W-1..2W+1, around the bit length, 2^31, 2^32 (+-k), 2^63, usize::MAX-k (k <= 130) on values of 0..6 words, both signs: canonical layout (repr_info), both ownership forms equal, ==/cmp/hash equal to the value parsed from text. `f.norm` (round 5): Repr::new vs from_parts vs from_parts_const on k*B^j for 28 bases (2; powers of two with 2..63 bits per digit and trailing zero bits of every residue; one-word bases up to 2^64-1 through UBig::remove with multiplicities 0..300), cofactors sharing a proper divisor with the base, both signs, zero, exponents 0, +-1, +-2^31, +-2^32 (+-k), isize::MIN, and result exponent isize::MAX - t for t around the digit count. `f.cmp` extreme class (round 5, E1): exponents within a few digit counts of isize::MAX / at isize::MIN / around +-2^31, +-2^32, precisions 2^31, 2^32 +- k, 2^63 -+ k, usize::MAX - k, equal values / neighbours / rescaled / independent, all sign pairs. Non-trivial := an integer operand above one word, "
         "every float/rational case; distinct := distinct (op,args) lines.")
 
 REFINED = [
@@ -573,6 +778,18 @@ REFINED = [
     "round 4: history instruction set extended by gcd (C12's mirrored kernels), sqrt, nth_root (C12), from_str_radix (C07's mirrored "
     "parser), from_le/be_bytes unsigned and two's complement (C07's mirrored decoders), to_*_bytes -> from_*_bytes round trips; "
     "the interpreter hrunX is what the driver executes for `c.hist`",
+    "round 5: Repr::<B>::normalize (= Repr::new) REGENERATED from float/src/repr.rs (Tie A, Gen/FloatNorm.lean: the `B == 2`, "
+    "power-of-two and UBig::remove arms; remove = C12's mirrored squaring-tower `removeRepr`), executed by the driver (`f.norm`, "
+    "operand of `f.ctx`) and proved equal, for every base >= 2 and every input, to the C05 hand model FRepr.normalize and to "
+    "C03's FRepr.new; none of its three `.unwrap()` can meet None (normalize_is_model, normalize_is_repr_new, "
+    "normalize_unwraps_are_some, float_normalize_regenerated)",
+    "round 5: FBig::from_parts_const (the const constructor behind static_fbig!/static_dbig!: its own power-of-two arm and "
+    "`while significand % B == 0` loop) mirrored (Model/Int/FloatConst.lean), executed by the driver in `f.norm`, proved to "
+    "return exactly Repr::normalize's representation for every base >= 2 and every double-word significand, with at most "
+    "precision+1 digits for the precision its checked_mul loop infers (from_parts_const_normalized, from_parts_const_fits)",
+    "round 5: rational histories — ==, cmp, Hash of ANY two registers produced by any finite program of C04's instruction set "
+    "(RBig and Relaxed) follow the values: C04's history invariant composed with ratio_cmp / relaxed_eq / rbig_eq / "
+    "rbig_hash_follows_value (Props/C05Link.rational_history_eq_cmp_hash)",
 ]
 FRONTIER = [
     "history theorem covers: const, fromWords (ANY raw word buffer -> from_buffer + sign: from_words, chunk decoders, "
@@ -588,8 +805,28 @@ FRONTIER = [
     "Context::div (given sound digits_ub/digits_lb estimates), inv, sqrt, powi, convert_int, from_parts, parser assembly; NOT "
     "modelled here: exp/ln/powf (their last step is repr_round / with_precision — C11 mirrors the bodies; checked on the real "
     "code by `f.ctx`/`f.fits`), with_base (C08; fix 02e179b), TryFrom<f32/f64> (precision = mantissa bits, C06)",
-    "Repr::normalize / Repr::new are hand-mirrored (loops over `remove`-style digit stripping are outside the Tie A translator's "
-    "subset); tied by Tie B only (`!unnormalized` marker after every float producer)",
+    "FBig::from_parts_const (own normaliser + precision-inference loop on a double word) is hand-mirrored "
+    "(Model/Int/FloatConst.lean; a const-fn loop over DoubleWord is outside the typed translator's subset: Tie B only, `f.norm` "
+    "prints the inferred precision); proved: its representation = Repr::normalize for every base and double word "
+    "(from_parts_const_normalized) and |significand| < B^(precision+1) for the precision it infers, any min_precision "
+    "(from_parts_const_fits; the real loop returns precision = digits - 1 when B^digits >= 2^128, e.g. 2*10^38+1 -> 38 — inside "
+    "the one-spare-digit slack of float_cmp, contrary to its doc comment `the lowest k such that significand <= base^k`)",
+    "exponent / precision arithmetic in isize/usize: every float theorem is over unbounded Int exponents and Nat precisions. The "
+    "real repr_cmp_same_base overflows (`exp + precision`, `exp + digits_ub`, `precision as isize`) when exponent + "
+    "max(precision, digits_ub) > isize::MAX or precision >= 2^63 — KNOWN FINDING (round 5; debug: panic, release: equal values "
+    "compare Greater); `Repr::normalize`'s own `exponent += shift` overflow (exponent within `shift` of isize::MAX: value not "
+    "representable) is not driven",
+    "c.hist shift / bit-index arguments are driven up to ~3000 only: the spec side of the history interpreter computes `a / 2^n` "
+    "literally (n >= 2^32 is not executable); counts up to usize::MAX on the same producers are driven by C09's ops (model "
+    "robust for every usize) and the producer theorems (`producers_canonical`, history theorems) hold for every Nat count",
+    "clause-by-clause (round 5 review): UBig/IBig ==, cmp, Equal<=>==, Hash: eq_iff_value_eq, ubig_cmp/ibig_cmp, cmp_equal_iff_eq, "
+    "hash_follows_value + history_eq_cmp_hash (all producers of the instruction set); FBig incl. infinities: float_cmp (under "
+    "digits <= precision+1, which float_history gives for the modelled producers), float_eq_iff_cmp_equal, "
+    "float_cmp_equal_iff_eq; FBig implements no Hash; RBig/Relaxed: ratio_cmp, relaxed_eq, rbig_eq, rbig_hash_follows_value, "
+    "ratio_cmp_equal_iff_eq + C05Link.rational_history_eq_cmp_hash. Clauses WITHOUT a theorem: cmp of floats produced by "
+    "exp/ln/powf/with_base/TryFrom<f32/f64> (producers not in float_history: sampled by f.ctx / f.viabase / f.basecmp only); "
+    "transitivity/totality of float cmp is a corollary of float_cmp only on the invariant's domain; `PartialOrd` consistency "
+    "(`partial_cmp == Some(cmp)`, `<` etc.) is checked by the harness, derived impls not modelled",
     "AbsOrd/AbsEq and cross-type comparisons are C14",
 ]
 EXPLANATION = ("Theorems: integers — cmp of canonical values = order of values; a value has exactly one canonical representation, so "
@@ -606,7 +843,8 @@ EXPLANATION = ("Theorems: integers — cmp of canonical values = order of values
 ASSUMPTIONS = ["derive(Hash)/slice hashing of core feed (isize discriminant, usize length prefix, word bytes) as observed on this host",
                "the f32 estimate `digits_ub` of the real code is an upper bound of the digit count (the model takes the estimator as a "
                "parameter with exactly this hypothesis; the driver instantiates it with the exact count)",
-               "usize/isize arithmetic on exponents and precisions does not overflow (Int in the model)"]
+               "usize/isize arithmetic on exponents and precisions does not overflow (Int in the model) — FALSE for the real cmp when "
+               "exponent + max(precision, digits_ub) > isize::MAX or precision >= 2^63: recorded as a known finding, driven by f.cmp / f.norm"]
 
 THEOREMS = ["Dashu.Props.C05." + n for n in [
     "ubig_cmp", "ibig_cmp", "canonical_form_unique", "eq_iff_value_eq", "cmp_equal_iff_eq", "hash_follows_value", "cmp_swap",
@@ -614,7 +852,13 @@ THEOREMS = ["Dashu.Props.C05." + n for n in [
     "float_cmp_needs_precision_bound", "float_normalize", "float_eq_iff_cmp_equal", "ratio_cmp", "relaxed_eq", "rbig_eq",
     "ratio_cmp_equal_iff_eq", "history_canonical", "history_values", "history_eq_cmp_hash",
     "float_results_fit", "float_cmp_of_results", "float_spare_digit_occurs", "rbig_hash_follows_value", "float_results_canonical",
-    "float_results_fit_more", "float_sources_fit", "float_cmp_equal_iff_eq", "float_history", "float_history_cmp"]]
+    "float_results_fit_more", "float_sources_fit", "float_cmp_equal_iff_eq", "float_history", "float_history_cmp",
+    "float_normalize_regenerated", "float_new_is_normalize"]]
+THEOREMS += ["Dashu.Props.GenFloatNorm." + n for n in [
+    "normalize_is_model", "normalize_is_repr_new", "repr_new_eq_normalize", "normalize_unwraps_are_some", "removeRepr_eq_removeAll"]]
+THEOREMS += ["Dashu.Props.C05Link.rational_history_eq_cmp_hash"]
+THEOREMS += ["Dashu.Props.C05.from_parts_const_normalized", "Dashu.Props.C05.constStrip_eq_removeAll",
+             "Dashu.Props.C05.from_parts_const_fits", "Dashu.Props.C05.constDigits_spec"]
 
 LEVEL_TEXT = ("Machine-checked Lean 4 theorems that (integers, every word size and length) comparison of canonical values is the order "
               "of the values and the canonical representation of a value is unique — so ==, the sequence fed to a Hasher and "
@@ -628,7 +872,11 @@ LEVEL_TEXT = ("Machine-checked Lean 4 theorems that (integers, every word size a
               "26 (IBig) independent routes whose results must be canonical (repr_info hook), pairwise ==, cmp Equal and hash-identical; "
               "float values through 8-11 single-rounding routes (owning and borrowing) per case. History theorem: every value produced by any "
               "finite program over 50 instructions (constructors, parser, byte decoders, ring/division/bit/shift operations, gcd, roots, "
-              "clones) is canonical, so ==/cmp/hash follow the value whichever operations produced the operands.")
+              "clones) is canonical, so ==/cmp/hash follow the value whichever operations produced the operands. Round 5: Repr::normalize is "
+              "regenerated from the source on every run and proved equal to both hand models for every base and input (its remove arm is "
+              "C12's mirrored algorithm); for rationals ==/cmp/Hash of any two registers of any finite program follow the values (link to "
+              "C04's history invariant). Exponent/precision arithmetic is unbounded in the theorems: the real comparison overflows isize "
+              "within max(precision, digits) of isize::MAX or for precision >= 2^63 (known finding, patch proposed).")
 LEVEL_NOTE = ("Trusted: Lean kernel; axioms propext/Classical.choice/Quot.sound; correspondence harness + generators (sampling) for the "
               "tie model<->code and for the claim that *every* producer yields canonical form (proved here only for the producers listed "
               "in refined_kernels); the digit-estimate hypothesis. Repaired during this work: floats leaving with_base/convert_base "
